@@ -1,10 +1,252 @@
-//! C33 — not built yet.
+//! C33 A failed run never changes the served data.
+//!
+//! Histories of `Server::process_once` calls (through the forwarding wrapper) over an engine
+//! without TALs; the data set of each call is carried by the local exceptions; each call is
+//! forced to succeed or to fail (retryable / fatal, before the run or after the complete run).
+//! Everything a client can observe is captured before and after every failed call.
+
+use proptest::prelude::*;
+use routinator::config::Config;
+use routinator::engine::Engine;
+use routinator::http::verif::Handler;
+use routinator::operation::Server;
+use routinator::payload::SharedHistory;
+use routinator::verif::{clear_forced_outcomes, forced_runs, set_forced_outcomes, Outcome};
+use rpki::rtr::server::{NotifySender, PayloadSource};
+use serde::{Deserialize, Serialize};
 
 use crate::core::*;
+use crate::hist::*;
+use crate::pay::*;
 
-pub const IMPLEMENTED: bool = false;
+#[derive(Serialize, Deserialize, Clone, Debug)]
+pub struct Step {
+    pub set: MSet,
+    /// 0 ok, 1 retry (before the run), 2 fatal (before), 3 retry after the complete run, 4 fatal after.
+    pub outcome: u8,
+    /// `initial` argument of process_once.
+    pub initial: bool,
+}
 
-pub fn run(_ctx: &Ctx, _rep: &mut Report, _replay: Option<&serde_json::Value>) {
-    eprintln!("C33: check not implemented");
-    std::process::exit(2);
+#[derive(Serialize, Deserialize, Clone, Debug)]
+pub struct Case {
+    pub keep: usize,
+    pub steps: Vec<Step>,
+}
+
+fn outcome_of(o: u8) -> (Outcome, &'static str) {
+    match o {
+        0 => (Outcome::Ok, "ok"),
+        1 => (Outcome::Retry, "retry"),
+        2 => (Outcome::Fatal, "fatal"),
+        3 => (Outcome::RetryLate, "retry-late"),
+        _ => (Outcome::FatalLate, "fatal-late"),
+    }
+}
+
+/// Everything observable about the served data.
+#[derive(Debug, PartialEq, Clone)]
+struct Obs {
+    ready: bool,
+    session: u64,
+    serial: u32,
+    created: Option<String>,
+    notify: (u16, u32),
+    full: (u16, u32, Vec<MItem>),
+    diffs: Vec<(u32, Option<(u32, Vec<(MItem, bool)>)>)>,
+    json_status: u16,
+    json_etag: Option<String>,
+    json_last_modified: Option<String>,
+    json_body: Vec<u8>,
+    json_conditional_status: u16,
+    delta_reset_body: Vec<u8>,
+    delta_prev_body: Vec<u8>,
+}
+
+impl Obs {
+    /// `validators`: (ETag, Last-Modified) to present in the conditional request (the ones seen
+    /// before the failed call); None = use this observation's own.
+    fn take(http: &Http, handler: &Handler, history: &SharedHistory, validators: Option<(Option<String>, Option<String>)>) -> Obs {
+        let (session, serial, created) = {
+            let h = history.read();
+            (h.session(), u32::from(h.serial()), h.created().map(|c| c.to_rfc3339()))
+        };
+        let mut diffs = Vec::new();
+        let mut clients: Vec<u32> = (0..=serial.saturating_add(2)).collect();
+        clients.extend([serial.wrapping_add(0x8000_0000), serial.wrapping_add(0x7FFF_FFFF), u32::MAX]);
+        for c in clients {
+            diffs.push((c, rtr_diff(history, session as u16, c).map(|d| (d.serial, d.actions))));
+        }
+        let json = http.get(handler, "/json", &[]);
+        let etag = json.header("etag").map(|s| s.to_string());
+        let lm = json.header("last-modified").map(|s| s.to_string());
+        let (c_etag, c_lm) = validators.unwrap_or((etag.clone(), lm.clone()));
+        let mut headers = Vec::new();
+        if let Some(e) = c_etag {
+            headers.push(("If-None-Match".to_string(), e));
+        }
+        if let Some(l) = c_lm {
+            headers.push(("If-Modified-Since".to_string(), l));
+        }
+        let cond = http.get(handler, "/json", &headers);
+        Obs {
+            ready: history.ready(),
+            session,
+            serial,
+            created,
+            notify: rtr_notify(history),
+            full: rtr_full(history),
+            diffs,
+            json_status: json.status,
+            json_etag: etag,
+            json_last_modified: lm,
+            json_body: json.body(),
+            json_conditional_status: cond.status,
+            delta_reset_body: http.get(handler, "/json-delta", &[]).body(),
+            delta_prev_body: http.get(handler, &format!("/json-delta?session={}&serial={}", session, serial.wrapping_sub(1)), &[]).body(),
+        }
+    }
+
+    fn first_difference(&self, other: &Obs) -> Option<(&'static str, String)> {
+        macro_rules! cmp {
+            ($f:ident, $name:expr) => {
+                if self.$f != other.$f {
+                    return Some(($name, format!("before={:?} after={:?}", self.$f, other.$f)));
+                }
+            };
+        }
+        cmp!(ready, "ready");
+        cmp!(session, "session");
+        cmp!(serial, "serial");
+        cmp!(notify, "rtr-notify-state");
+        cmp!(full, "data-set");
+        cmp!(diffs, "serial-query-answers");
+        cmp!(json_etag, "etag");
+        cmp!(created, "created");
+        cmp!(json_last_modified, "last-modified");
+        cmp!(json_status, "json-status");
+        if self.json_body != other.json_body {
+            return Some(("json-body", format!("before={:?} after={:?}", String::from_utf8_lossy(&self.json_body), String::from_utf8_lossy(&other.json_body))));
+        }
+        cmp!(json_conditional_status, "conditional-request-status");
+        if self.delta_reset_body != other.delta_reset_body {
+            return Some(("json-delta-reset-body", format!("before={:?} after={:?}", String::from_utf8_lossy(&self.delta_reset_body), String::from_utf8_lossy(&other.delta_reset_body))));
+        }
+        if self.delta_prev_body != other.delta_prev_body {
+            return Some(("json-delta-body", format!("before={:?} after={:?}", String::from_utf8_lossy(&self.delta_prev_body), String::from_utf8_lossy(&other.delta_prev_body))));
+        }
+        None
+    }
+}
+
+struct World<'a> {
+    env: &'a Env,
+    http: &'a Http,
+    engine: &'a Engine,
+}
+
+fn judge(world: &World<'_>, case: &Case, info: &mut CaseInfo) -> Verdict {
+    let config: Config = match world.env.config(&[], &["--history".into(), case.keep.to_string()]) {
+        Ok(c) => c,
+        Err(e) => return Verdict::Dropped(format!("config: {}", e)),
+    };
+    let history = SharedHistory::from_config(&config);
+    let mut notify = NotifySender::new();
+    let handler = world.http.handler(&config, &history, &notify);
+    let mut l1 = notify.subscribe();
+    let mut l2 = notify.subscribe();
+    let mut failed_after_change = false;
+    let mut failed_with_pending = false;
+    for (i, step) in case.steps.iter().enumerate() {
+        let (outcome, oname) = outcome_of(step.outcome);
+        let exceptions = exceptions_for(&step.set);
+        if outcome == Outcome::Ok {
+            set_forced_outcomes(vec![Outcome::Ok], Outcome::Ok, usize::MAX);
+            let res = Server::verif_process_once(&config, world.engine, &history, &mut notify, &exceptions, step.initial);
+            clear_forced_outcomes();
+            if res.is_err() {
+                return Verdict::Dropped("unforced_run_failed".into());
+            }
+            info.class("call=ok");
+            continue;
+        }
+        // ---- a failing call ----
+        let pending_before = poll_notification(&mut l1);
+        let mut fresh = notify.subscribe();
+        let before = Obs::take(world.http, &handler, &history, None);
+        set_forced_outcomes(vec![outcome], Outcome::Ok, usize::MAX);
+        let res = Server::verif_process_once(&config, world.engine, &history, &mut notify, &exceptions, step.initial);
+        let consulted = forced_runs();
+        clear_forced_outcomes();
+        if consulted != 1 || res.is_ok() {
+            panic!("forced outcome hook not effective: consulted {} times, result ok={}", consulted, res.is_ok());
+        }
+        let retry = res.as_ref().err().map(|e| e.should_retry()).unwrap_or(false);
+        if retry != matches!(outcome, Outcome::Retry | Outcome::RetryLate) {
+            panic!("forced outcome {} produced should_retry={}", oname, retry);
+        }
+        let after = Obs::take(world.http, &handler, &history, Some((before.json_etag.clone(), before.json_last_modified.clone())));
+        info.class(format!("call={}", oname));
+        info.class(if before.ready { "failed_with_data_served" } else { "failed_before_first_success" });
+        if before.serial >= 1 {
+            failed_after_change = true;
+        }
+        if pending_before {
+            failed_with_pending = true;
+            info.class("failed_with_pending_notification");
+        }
+        if let Some((field, msg)) = before.first_difference(&after) {
+            return Verdict::fail(format!("C33/state-changed/{}/outcome={}", field, oname), format!("call {} ({}, initial={}): {}", i, oname, step.initial, msg));
+        }
+        if poll_notification(&mut fresh) {
+            return Verdict::fail(format!("C33/notification-sent/outcome={}", oname), format!("call {} ({}): a receiver subscribed just before the failed call has a notification", i, oname));
+        }
+        let pending_after = poll_notification(&mut l2);
+        if pending_after != pending_before {
+            return Verdict::fail(format!("C33/pending-notifications-changed/outcome={}", oname), format!("call {} ({}): twin receivers saw pending={} before and pending={} after the failed call", i, oname, pending_before, pending_after));
+        }
+    }
+    info.nt(failed_after_change);
+    if failed_with_pending && failed_after_change {
+        info.class("nt:pending+changed");
+    }
+    Verdict::Pass
+}
+
+pub fn case_strategy(max_calls: usize) -> impl Strategy<Value = Case> {
+    (
+        prop::sample::select(vec![1usize, 2, 10]),
+        history_strategy(2, max_calls, 6, 25),
+        prop::collection::vec((prop_oneof![5 => Just(0u8), 4 => 1u8..=4], 0u8..10), max_calls),
+    )
+        .prop_map(|(keep, sets, meta)| {
+            let steps = sets
+                .into_iter()
+                .zip(meta)
+                .enumerate()
+                .map(|(i, (set, (outcome, ini)))| Step { set, outcome, initial: if i == 0 { ini != 0 } else { ini == 0 } })
+                .collect();
+            Case { keep, steps }
+        })
+}
+
+pub fn run(ctx: &Ctx, rep: &mut Report, replay: Option<&serde_json::Value>) {
+    rep.rule("histories of 2..=10 (thorough 2..=30) Server::process_once calls over an engine without TALs, the data set of each call (<= 6 origins/router keys, 25 % repeats) carried by local exceptions, history-size in {1,2,10}; each call is forced (verif hook at the top / end of ValidationReport::process) to succeed (5/9) or to fail: retryable or fatal, before the run or after the complete run; `initial` mostly true for the first call only, sometimes elsewhere; before and after every failed call the observable state is captured: ready, session, serial, created, RTR notify state, full data set, answers to serial queries for every serial 0..=S+2 and wrap-around serials, /json status+ETag+Last-Modified+body, conditional /json with the pre-failure validators, /json-delta reset and delta documents; notifications: a receiver subscribed just before the failed call must stay empty, twin long-lived receivers must show the same pending state before and after; non-trivial = a failed call when serial >= 1; distinct by serialised case");
+    rep.assume("forced failures come from the verif hook in ValidationReport::process (Retry/Fatal before the engine run, RetryLate/FatalLate after the complete run); failures in the middle of a run with real store updates need the RPKI repository generator and are not produced here");
+    rep.assume("last_update_start (shown by /status) legitimately changes when a run starts and is not part of the compared state");
+    init_process();
+    let env = Env::new(ctx.scratch());
+    let http = Http::new();
+    let engine_config = env.config(&[], &[]).expect("engine config");
+    let mut engine = Engine::new(&engine_config, true).expect("engine");
+    engine.ignite().expect("ignite");
+    let world = World { env: &env, http: &http, engine: &engine };
+    let prop = |case: &Case, info: &mut CaseInfo| judge(&world, case, info);
+    if let Some(v) = replay {
+        let t: Tagged<Case> = serde_json::from_value(v.clone()).expect("replay");
+        run_case(ctx, rep, &t.sub, &t.case, prop);
+        return;
+    }
+    run_prop(ctx, rep, "calls", ctx.tier.pick(15_000, 150_000), case_strategy(ctx.tier.pick(10, 30)), prop);
+    clear_forced_outcomes();
 }
